@@ -1050,9 +1050,21 @@ package kcp
 // is a loop invariant here rather than part of the session monitor.
 // ===================================================================================
 //
-//@ func UDPSession.tx trusted
+// golang.org/x/net's batch write (trusted): writes a prefix of the batch
+//@ func batchConn.WriteBatch trusted
+//@   modifies nothing
+//@   ensures result1 == nil ==> 0 <= result0 && result0 <= len(ms)
+// tx: callers use the contract (frame trusted: nomodcheck); its body is verified for the
+// bookkeeping of partial batch writes (C09): every call of the socket is handed exactly the
+// not-yet-written rest of the queue, so no datagram is emitted twice and none is skipped.
+//@ func UDPSession.tx nomodcheck
+//@   requires s.imm()
 //@   requires forall k int :: 0 <= k && k < len(txqueue) ==> len(txqueue[k].Buffers) >= 1
 //@   modifies all(DefaultSnmp)
+//@   callsite batchConn.WriteBatch requires @C09 [a-batch-write-is-handed-exactly-the-rest-of-the-queue-not-yet-written] ref(ms) == ref(old(txqueue)) && off(ms) == off(old(txqueue)) + npkts && len(ms) == len(old(txqueue)) - npkts
+//@   loop 1 invariant @C09 ref(txqueue) == ref(old(txqueue)) && off(txqueue) == off(old(txqueue)) + npkts && len(txqueue) == len(old(txqueue)) - npkts && npkts >= 0 && nbytes >= 0
+//@   loop 1 invariant s.imm() && (forall k int :: 0 <= k && k < len(txqueue) ==> len(txqueue[k].Buffers) >= 1)
+//@   loop 2 invariant s.imm() && (forall k int :: 0 <= k && k < len(txqueue) ==> len(txqueue[k].Buffers) >= 1) && nbytes >= 0 && npkts >= 0
 //@ func fillRand trusted counted
 //@   modifies p[..]
 //@ pred (s *UDPSession) ppinv() = s.imm() && s.hdr() && (s.fecEncoder != nil ==> s.fecEncoder.wf() && s.fecEncoder.maxSize + s.ov() <= 1500)
